@@ -58,7 +58,10 @@ RESULTS = ["none", "sonar-present", "sarif-present", "sonar-missing", "sarif-mis
 AI = ["unset", "azure-key-only", "azure-endpoint-only", "llama-key-only", "llama-endpoint-only", "llama-both",
       # a variable that is present but empty is not a configured value (what `VAR=${MISSING}` expands to)
       "azure-key-empty", "azure-endpoint-empty", "llama-key-empty", "llama-endpoint-empty", "azure-both-empty"]
-OUTPUTS = ["writable", "none", "missing-parent", "is-directory", "parent-is-file"]
+OUTPUTS = ["writable", "none", "missing-parent", "is-directory", "parent-is-file",
+           # writable targets that are not fresh regular files: the report can be written, so the run completes with 0
+           "existing-file", "symlink-to-file", "fifo-with-reader", "dev-null"]
+OUT_KIND = {"existing-file": "existing", "symlink-to-file": "symlink", "fifo-with-reader": "fifo"}
 
 
 def ai_env(kind):
@@ -139,8 +142,8 @@ def build(cfg):
     argv += rtoks
     if dir_at_end:
         argv.append(dir_tok)
-    out_path = {"writable": None, "none": None, "missing-parent": "{scratch}/nodir/out.codetf", "is-directory": "{scratch}/res", "parent-is-file": "{res:afile}/out.codetf"}[o]
-    job = drive.Job(files={"app.py": SRC}, argv=argv + tail, results=results, env=ai_env(a), output=(o != "none"), out_path=out_path)
+    out_path = {"missing-parent": "{scratch}/nodir/out.codetf", "is-directory": "{scratch}/res", "parent-is-file": "{res:afile}/out.codetf", "dev-null": "/dev/null"}.get(o)
+    job = drive.Job(files={"app.py": SRC}, argv=argv + tail, results=results, env=ai_env(a), output=(o != "none"), out_path=out_path, out_kind=OUT_KIND.get(o))
     if tail and o != "none":
         # keep the missing-operand fragment last: --output goes before it
         job.output = False
@@ -186,7 +189,7 @@ def ref_exit_status(cfg):
         # undocumented: a regular file as target; accept success or "cannot be read"
         return (applicable | {0, 1}), False, "target is a regular file (don't care)"
     if not applicable:
-        return {0}, o == "writable", "completed run"
+        return {0}, o in ("writable", "existing-file", "symlink-to-file", "fifo-with-reader"), "completed run"
     return applicable, False, "run-time conditions %s" % sorted(applicable)
 
 
